@@ -99,7 +99,9 @@ Record verdict := {
   v_model_fail : list token;    (* fields where [run] and the implementation differ *)
   v_outcome : bool;             (* success / failure as the model predicts *)
   v_rest : bool;                (* Args() *)
-  v_parsers : bool              (* modelled value parsers agree with the stdlib answers *)
+  v_parsers : bool;             (* modelled value parsers agree with the stdlib answers *)
+  v_later_accepted : bool;      (* a later Parse on the same FlagSet returned nil (the model refuses it); drift only *)
+  v_changed_on_error : bool     (* a later Parse returned an error and changed fields (the model leaves them alone); drift only *)
 }.
 
 Fixpoint tokens_eqb (a b : list token) : bool :=
@@ -184,14 +186,18 @@ Definition check_case (int_size : N) (fos : list fobs) (vec : list token) (cfgfi
   if negb (callno =? 0) then
     (* a later call on the same FlagSet: the model (C09_parse_once) refuses it and leaves the fields alone;
        the specification still applies if the implementation returns nil: the winners of THIS call's sources *)
+    (* The property does not say that Parse may succeed only once: an ACCEPTED later call is judged by the
+       specification alone (spec_fail: the winners of this call's own sources) and is otherwise drift; the fields
+       after a later call that fails are unconstrained. *)
     match parse_call w {| ob_parsed := true; ob_fs := builtins ++ fields; ob_st := None |} vec with
     | (_, PAlready) =>
         {| v_spec_fail := spec_fail; v_env_fail := env_fail; v_tag_fail := tag_fail; v_skipped := skipped;
-           v_model_fail := if unchanged then [] else map (fun fo => fname (fo_flag fo)) fos;
-           v_outcome := negb ok; v_rest := true; v_parsers := parsers_ok int_size fos |}
+           v_model_fail := []; v_outcome := true; v_rest := true; v_parsers := parsers_ok int_size fos;
+           v_later_accepted := ok; v_changed_on_error := negb ok && negb unchanged |}
     | _ =>
         {| v_spec_fail := spec_fail; v_env_fail := env_fail; v_tag_fail := tag_fail; v_skipped := skipped;
-           v_model_fail := []; v_outcome := false; v_rest := true; v_parsers := true |}
+           v_model_fail := []; v_outcome := false; v_rest := true; v_parsers := true;
+           v_later_accepted := false; v_changed_on_error := false |}
     end
   else
   match run w fields vec with
@@ -205,13 +211,16 @@ Definition check_case (int_size : N) (fos : list fobs) (vec : list token) (cfgfi
                                              | Some fin, Some v => if value_matches v fin then [] else [fname (fo_flag fo)]
                                              | _, _ => [fname (fo_flag fo)]
                                              end) fos;
-         v_outcome := ok; v_rest := tokens_eqb rest rest'; v_parsers := parsers_ok int_size fos |}
+         v_outcome := ok; v_rest := tokens_eqb rest rest'; v_parsers := parsers_ok int_size fos;
+         v_later_accepted := false; v_changed_on_error := false |}
   | _ =>
       {| v_spec_fail := spec_fail; v_env_fail := env_fail; v_tag_fail := tag_fail; v_skipped := skipped; v_model_fail := [];
-         v_outcome := negb ok; v_rest := true; v_parsers := parsers_ok int_size fos |}
+         v_outcome := negb ok; v_rest := true; v_parsers := parsers_ok int_size fos;
+         v_later_accepted := false; v_changed_on_error := false |}
   end.
 
 Definition is_nil {A} (l : list A) : bool := match l with [] => true | _ => false end.
 Definition verdict_spec_ok (v : verdict) : bool := is_nil (v_spec_fail v) && is_nil (v_env_fail v) && is_nil (v_tag_fail v).
 Definition verdict_ok (v : verdict) : bool :=
   verdict_spec_ok v && is_nil (v_model_fail v) && v_outcome v && v_rest v && v_parsers v.
+Definition verdict_clean (v : verdict) : bool := verdict_ok v && negb (v_later_accepted v) && negb (v_changed_on_error v).
